@@ -647,13 +647,62 @@ def c23_vsorder(R):
     rets = [ast.unparse(r.value) for r in walk_no_nested(ne) if isinstance(r, ast.Return)]
     R.check(rets == ["~(self == other)"], m, ne, "ValueSet.__ne__ is the complement of ==", f"ValueSet.__ne__ returns {rets}")
     eq = ms["__eq__"]
-    Fe = util.Frags(eq)
+    # two flags: "some common region may be equal" (set under has_true) and "some region may differ" (set under
+    # has_false or for a region missing on one side); the verdict after the loop is interpreted for all four values
+    loops = [st for st in ast.walk(eq) if isinstance(st, ast.For)]
+    verdict_ok, why = False, "no loop over the regions found"
+    for lp in loops:
+        blk = None
+        for fld in ("body", "orelse"):
+            lst = getattr(getattr(lp, "_parent", None), fld, None)
+            if isinstance(lst, list) and any(x is lp for x in lst):
+                blk = lst
+        if blk is None:
+            continue
+        i = [k for k, x in enumerate(blk) if x is lp][0]
+        flags = [st.targets[0].id for st in blk[:i] if isinstance(st, ast.Assign) and isinstance(st.targets[0], ast.Name) and isinstance(st.value, ast.Constant) and st.value.value is False]
+        may_eq = [f for f in flags if any(isinstance(st, ast.Assign) and ast.unparse(st.targets[0]) == f and any("has_true" in ast.unparse(t) and pol for t, pol in guards.guards_of(st)) for st in ast.walk(lp))]
+        may_ne = [f for f in flags if f not in may_eq and any(isinstance(st, ast.Assign) and ast.unparse(st.targets[0]) == f for st in ast.walk(lp))]
+        if len(may_eq) != 1 or len(may_ne) != 1:
+            why = f"flags set in the loop: may-equal {may_eq}, may-differ {may_ne}"
+            continue
+        S, D = may_eq[0], may_ne[0]
+
+        def ev(e, env):
+            if isinstance(e, ast.Name) and e.id in env:
+                return env[e.id]
+            if isinstance(e, ast.Constant) and isinstance(e.value, bool):
+                return e.value
+            if isinstance(e, ast.UnaryOp) and isinstance(e.op, ast.Not):
+                return not ev(e.operand, env)
+            if isinstance(e, ast.BoolOp):
+                vals = [ev(v, env) for v in e.values]
+                return all(vals) if isinstance(e.op, ast.And) else any(vals)
+            raise AnalysisError(f"C23.vsorder: verdict test outside the fragment: {ast.unparse(e)}")
+
+        def run(stmts, env):
+            for st in stmts:
+                if isinstance(st, ast.If):
+                    r = run(st.body if ev(st.test, env) else st.orelse, env)
+                    if r is not None:
+                        return r
+                elif isinstance(st, ast.Return):
+                    return {"TrueResult": "T", "FalseResult": "F", "MaybeResult": "M"}.get(dotted(st.value.func) if isinstance(st.value, ast.Call) else "")
+                else:
+                    raise AnalysisError(f"C23.vsorder: statement outside the fragment in the verdict: {norm(st)}")
+            return None
+
+        table = {(se, de): run(blk[i + 1 :], {S: se, D: de}) for se in (True, False) for de in (True, False)}
+        want = {(True, False): "T", (True, True): "M", (False, True): "F", (False, False): "F"}
+        verdict_ok = table == want
+        why = f"verdict table (may-equal, may-differ) -> {table}"
+        break
     R.check(
-        Fe.has("same = False") and Fe.has("different = False") and Fe.has("if same and not different:\n    return TrueResult()"),
+        verdict_ok,
         m,
         eq,
         "ValueSet.__eq__: True only if some region pair can be equal and none can differ",
-        "ValueSet.__eq__ lost its same/different bookkeeping",
+        f"ValueSet.__eq__ lost its same/different bookkeeping: {why}; it must be True only for (equal possible, difference impossible), Maybe for (possible, possible), False otherwise",
         construct="ValueSet.__eq__ shape",
     )
     for name in ("min", "max"):
@@ -1079,7 +1128,31 @@ def c25_bounds(R):
     F.has("int_min = -2 ** (size - 1)")
     F.has("bound_max = right_max if is_equal else right_max - 1 if is_lt else right_max + 1")
     F.has("bound_min = right_min if is_equal else right_min - 1 if is_lt else right_min + 1")
-    R.check(F.has("current_max = min(int_max, left_max, bound_max)") and F.has("current_min = max(int_min, left_min, bound_min)"), m, hc,
+    def recorded_value(call):
+        """what is recorded as the bound: the call's second argument, or the last value given to that local before
+        the call in the same block"""
+        v = call.args[1] if len(call.args) > 1 else None
+        if isinstance(v, ast.Name):
+            st = call
+            while st is not None and not isinstance(st, ast.stmt):
+                st = getattr(st, "_parent", None)
+            blk = None
+            for fld in ("body", "orelse", "finalbody"):
+                lst = getattr(getattr(st, "_parent", None), fld, None)
+                if isinstance(lst, list) and any(x is st for x in lst):
+                    blk = lst
+            if blk is not None:
+                for prev in reversed(blk[: [i for i, x in enumerate(blk) if x is st][0]]):
+                    if isinstance(prev, ast.Assign) and any(isinstance(t_, ast.Name) and t_.id == v.id for t_ in prev.targets):
+                        return prev.value
+        return v
+
+    ups = [c for c in _calls(hc) if isinstance(c.func, ast.Attribute) and c.func.attr == "_add_upper_bound"]
+    lows = [c for c in _calls(hc) if isinstance(c.func, ast.Attribute) and c.func.attr == "_add_lower_bound"]
+    R.check(
+        len(ups) == 1 and len(lows) == 1
+        and recorded_value(ups[0]) is not None and F.canon(recorded_value(ups[0])) == "min(int_max, left_max, bound_max)"
+        and recorded_value(lows[0]) is not None and F.canon(recorded_value(lows[0])) == "max(int_min, left_min, bound_min)", m, hc,
             "upper bound = min of candidates, lower bound = max of candidates", "_handle_comparison combines its candidate bounds differently",
             construct="_handle_comparison candidates")
     R.check(
@@ -1162,8 +1235,10 @@ def c25_unpack(R):
         construct="_unpack_truisms_not Or",
     )
     FO = util.Frags(un)
+    FO2 = util.Frags(un)
     R.check(
-        FO.has("vals = [claripy.backends.vsa.is_false(v) for v in c.args]") and FO.has("vals.count(False) == 1") and FO.has("c.args[vals.index(False)]"),
+        (FO.has("vals = [claripy.backends.vsa.is_false(v) for v in c.args]") and FO.has("vals.count(False) == 1") and FO.has("c.args[vals.index(False)]"))
+        or (FO2.has("maybe_true = [v for v in c.args if not claripy.backends.vsa.is_false(v)]") and FO2.has("len(maybe_true) == 1") and FO2.has("Balancer._unpack_truisms(maybe_true[0])")),
         m,
         un,
         "an Or is unpacked only into its single not-definitely-false disjunct",
@@ -1204,8 +1279,10 @@ def c25_unsat(R):
     cannot = re.compile(r"claripy\.backends\.vsa\.(has_true|has_false)\(")  # definite when it does not hold
     rng = re.compile(r"Balancer\._(min|max|range)\(")  # a comparison of computed range ends
 
+    possibly = re.compile(r"^\[.* if not claripy\.backends\.vsa\.is_false\(")  # the list of not-definitely-false items
+
     def definite(t, pol):
-        return bool((pol and must.search(t)) or (not pol and cannot.search(t) and not must.search(t)) or rng.search(t))
+        return bool((pol and must.search(t)) or (not pol and cannot.search(t) and not must.search(t)) or rng.search(t) or (not pol and possibly.search(t)))
 
     for q, fn0 in m.functions.items():
         # locals are resolved to what they were computed from, so the test reads the same whatever they are called
@@ -1549,7 +1626,23 @@ def c25_valid(R):
         valid_ops, subjects, why = _BALANCE_ARMS[name]
         # every single-assignment local is replaced by what it was computed from: guards and rebuilt comparisons then
         # read in terms of `truism` access paths and VSA queries, whatever the intermediates are called
-        rfn = util.resolve_locals(fn)
+        rfn = util.resolve_locals(tree.func_inlined(BAL, f"Balancer.{name}"))
+
+        def assigned_values(nm):
+            """expressions assigned to the local `nm` anywhere in the function (element-wise for tuple assignments)"""
+            out = []
+            for st in walk_no_nested(rfn):
+                if not isinstance(st, ast.Assign):
+                    continue
+                for tg in st.targets:
+                    if isinstance(tg, ast.Name) and tg.id == nm:
+                        out.append(st.value)
+                    elif isinstance(tg, (ast.Tuple, ast.List)):
+                        for i_, e_ in enumerate(tg.elts):
+                            if isinstance(e_, ast.Name) and e_.id == nm:
+                                out.append(st.value.elts[i_] if isinstance(st.value, (ast.Tuple, ast.List)) and len(st.value.elts) == len(tg.elts) else st.value)
+            return out
+
         rebuilt = [
             r
             for r in walk_no_nested(rfn)
@@ -1584,9 +1677,8 @@ def c25_valid(R):
                 # a flag that is assigned on several branches (query result / None) is not inlined: follow it
                 for x in ast.walk(t):
                     if isinstance(x, ast.Name):
-                        for st in walk_no_nested(rfn):
-                            if isinstance(st, ast.Assign) and any(isinstance(tg, ast.Name) and tg.id == x.id for tg in st.targets):
-                                queries += [c for c in ast.walk(st.value) if isinstance(c, ast.Call) and (dotted(c.func) or "").startswith("claripy.backends.vsa.")]
+                        for v_ in assigned_values(x.id):
+                            queries += [c for c in ast.walk(v_) if isinstance(c, ast.Call) and (dotted(c.func) or "").startswith("claripy.backends.vsa.")]
                 for q in queries:
                     # widths (len(..), .size()) are not uses of the value; names that could not be inlined (assigned
                     # on several branches) are followed to what they were assigned from
@@ -1596,10 +1688,9 @@ def c25_valid(R):
                         for node_ in work:
                             for nm in _value_names(node_) - seen_names:
                                 seen_names.add(nm)
-                                for st in walk_no_nested(rfn):
-                                    if isinstance(st, ast.Assign) and any(isinstance(tg, ast.Name) and tg.id == nm for tg in st.targets):
-                                        texts.append(_value_text(st.value))
-                                        nxt.append(st.value)
+                                for v_ in assigned_values(nm):
+                                    texts.append(_value_text(v_))
+                                    nxt.append(v_)
                         work = nxt
                     text = " ; ".join(texts)
                     for gi, group in enumerate(subjects):
